@@ -465,6 +465,13 @@ class Machine:
         raise Unsupported('rvalue ' + str(rv)[:200])
 
     def binop(self, op, a, b):
+        if isinstance(a, Ref) or isinstance(b, Ref):
+            # pointer-address arithmetic (rustc's debug alignment / null checks): outside the value model; the result is an
+            # unconstrained value that only feeds those checks
+            self.stats['ptr_arith'] = self.stats.get('ptr_arith', 0) + 1
+            if op in ('Eq', 'Ne', 'Lt', 'Le', 'Gt', 'Ge'):
+                return Sc('bool', self.fresh('ptrcmp', z3.BoolSort()))
+            return Sc('usize', self.fresh('ptrbits', z3.BitVecSort(64)))
         if not isinstance(a, Sc) or not isinstance(b, Sc):
             raise Unsupported(f'binop {op} on {a!r},{b!r}')
         ty = a.ty; x, y = a.t, b.t
@@ -663,7 +670,9 @@ class Machine:
                 c = self.operand(fn, fr, cop).t
                 if neg: c = z3.Not(c)
                 is_ovf = 'overflow' in msg
-                if is_ovf and not self.overflow_checks:
+                if msg.startswith(('misaligned pointer dereference', 'null pointer dereference')):
+                    bb = nxt        # references are valid and aligned by construction in the value model
+                elif is_ovf and not self.overflow_checks:
                     bb = nxt        # release profile: wrapping arithmetic, no check
                 else:
                     if self.choose([c, z3.Not(c)]) == 1:
